@@ -235,6 +235,8 @@ func exec1(op string) vlib.Res {
 		return execFingerprint()
 	case "cache view":
 		return execCacheView(f[2])
+	case "msg doq":
+		return execDoQ(f)
 	case "msg serve":
 		return execServe(f)
 	case "lib room":
@@ -1086,6 +1088,11 @@ func gen(r *vlib.R, n int, tier string, emit func(string)) {
 		}
 		if r.Chance(1, 5) {
 			e("msg fingerprint")
+		}
+		if r.Chance(1, 6) {
+			zid := build(seed, p).m
+			zid.Id = 0
+			e("msg doq lib=" + libPack(zid).String())
 		}
 		if r.Chance(1, 4) {
 			e("lib room")
